@@ -34,10 +34,18 @@ func iteS(c bool, a, b string) string {
 
 // ---- C17: scanner protocol: every scan loop either consumed all lines or the scanner's
 // error is reported (fatal / returned) before the function returns normally ------------------
+// Parse: effect of one input line on the output buffer. In format-only mode every line is
+// kept (left-trimmed, followed by one newline) whatever its kind; when compiling, a
+// definition, comment, empty, flags, prefix or suffix line emits nothing, a regular line is
+// emitted left-trimmed followed by one newline.
 //@ contract Parser.Parse
 //@   tags C17 C19
 //@   opt scan-complete C17
 //@   results buf wrote
+//@   loop 0 body[C09,C10] format-only-keeps-every-line: implies(formatOnly, bufContent(p.dest) == atHead(bufContent(p.dest))+line+"\n")
+//@   loop 0 body[C07,C05] no-entry-for-definition-and-meta-lines: implies(!formatOnly && (parsedLine.parsedType == definition || parsedLine.parsedType == comment || parsedLine.parsedType == empty || parsedLine.parsedType == flags || parsedLine.parsedType == prefix || parsedLine.parsedType == suffix), bufContent(p.dest) == atHead(bufContent(p.dest)))
+//@   loop 0 body[C05,C07] regular-line-emitted-in-place: implies(!formatOnly && parsedLine.parsedType == regular, bufContent(p.dest) == atHead(bufContent(p.dest))+line+"\n")
+//@   loop 0 body[C05] include-text-emitted-in-place: implies(!formatOnly && parsedLine.parsedType == include && called(buildIncludeString) && len(resultOf(buildIncludeString, 0)) > 0, bufContent(p.dest) == atHead(bufContent(p.dest))+resultOf(buildIncludeString, 0))
 
 // ---- C06: suffix replacement pairs ------------------------------------------------------
 
